@@ -93,10 +93,14 @@ static int do_call(int m, int f, int a, int b)
   return -1;
 }
 
+static int nest_depth = 0;
 void nested_call(int slot)
 {
+  // a side effect that calls a mock function (the global lock is recursive); nesting is limited to one level
   auto& n = cfg[slot].nest;
-  if (n[0] >= 0 && n[0] < NMOCK && mocks[n[0]]) do_call(n[0], n[1], n[2], n[3]);
+  if (nest_depth > 0 || n[0] < 0 || n[0] >= NMOCK || !mocks[n[0]] || n[1] < 1 || n[1] > 4) return;
+  struct G { G() { ++nest_depth; } ~G() { --nest_depth; } } g;
+  do_call(n[0], n[1], n[2], n[3]);
 }
 
 static std::string jesc(std::string const& s)
